@@ -21,7 +21,7 @@
      statuses (A,B)), leading from statuses st at clock t to st' at t'; times never decrease
      and stay below tmax. *)
 From EoNV Require Import Prelude Samp Graph ListDict ListDictP Gillespie KldP GillespieInv SampP Simple SimpleP
-  SimpleExecS SimpleExec SimpleExecLog SimpleExecTop SimpleExecFuel.
+  SimpleExecS SimpleExec SimpleExecLog SimpleExecTop SimpleExecFuel SimpleExecW.
 
 (* ---- scripted execution only follows possible outcomes, and logs its calls ---- *)
 Theorem C03x_exec_follows_the_program :
@@ -167,6 +167,22 @@ Theorem C03x_fuel_suffices :
   fst (exec (simple g sortable spont induced ic rstat tmin tmax full fuel) ds []) <> Err OutOfFuel.
 Proof. exact (simple_fuel_suffices g Hg ic rstat tmin tmax full). Qed.
 
+(* ---- the weights never change: at EVERY loop head of EVERY run the weight the bookkeeping uses
+   for an actor is the weight the SPECIFICATION gives it (1 without weight source, the
+   weight_label attribute, or the rate_function's value); with C03_step_law_sound the mass of
+   (transition, actor) at that loop head is rate * spec_weight / total ---- *)
+Theorem C03x_weights_are_the_specifications_at_every_loop_head :
+  forall sortable spont induced fuel ds out tr,
+  Forall (sp_tr_ok g) spont -> Forall (in_tr_ok g) induced ->
+  exec (simple g sortable spont induced ic rstat tmin tmax full fuel) ds [] = (Ok out, tr) ->
+  exists sp inn l1 l2 t' s',
+    tr = l1 ++ l2 /\ srun g rstat tmax full tmin (start g ic rstat tmin sp inn) l1 t' s' /\
+    finish g ic rstat tmin full s' = Ok out /\
+    forall l t s, srun g rstat tmax full tmin (start g ic rstat tmin sp inn) l t s ->
+      (forall sl u, In sl (s_sp s) -> In u (gnodes g) -> wgt sl [u] = spec_weight g false (sl_tr sl) [u]) /\
+      (forall sl u v, In sl (s_in s) -> In u (gnodes g) -> In v (gadj g u) -> wgt sl [u; v] = spec_weight g true (sl_tr sl) [u; v]).
+Proof. exact (simple_exec_weights g Hg ic rstat tmin tmax full). Qed.
+
 End C03x.
 
 (* ---- non-vacuity: the weighted SIS-like specification of Props/C03.v on the path 0-1-2 meets
@@ -201,4 +217,5 @@ Print Assumptions C03x_output_is_one_log_of_enabled_transitions.
 Print Assumptions C03x_log_times.
 Print Assumptions C03x_log_chronological.
 Print Assumptions C03x_fuel_suffices.
+Print Assumptions C03x_weights_are_the_specifications_at_every_loop_head.
 Print Assumptions C03x_example.
